@@ -11,7 +11,8 @@
      with the functional run, never asserts, never dereferences null, never runs out of the stated fuel. *)
 From Coq Require Import NArith List Bool Lia PeanoNat.
 From FV Require Import Rb.RbModel Rb.RbInorder Rb.RbInvariant Rb.RbLayout Rb.RbPtr Rb.RbPtrBase Rb.RbPtrRefineRot
-  Rb.RbPtrRefineIns Rb.RbPtrRefineFix Rb.RbPtrRefineInsert.
+  Rb.RbPtrRefineIns Rb.RbPtrRefineFix Rb.RbPtrRefineInsert Rb.RbPtrRemF Rb.RbPtrRefineRem Rb.RbPtrRefineUnlink
+  Rb.RbPtrRefineReplace Rb.RbPtrRefineRemove.
 Import ListNotations.
 
 Section Strip.
@@ -81,6 +82,72 @@ Section Strip.
     induction 1 as [|l x a r n Hl IHl Hr IHr Bl Br|l x a r n Hl IHl Hr IHr]; cbn [strip]; constructor; auto;
       unfold isBlack in *; rewrite isRed_strip; assumption.
   Qed.
+  (* ---- the same for removal *)
+  Definition spb (p : tree elt annot * bool) : tree elt unit * bool := (strip (fst p), snd p).
+  Lemma isBlack_strip t : isBlack (strip t) = isBlack t.
+  Proof. unfold isBlack. rewrite isRed_strip. reflexivity. Qed.
+  Lemma strip_bsL c l x rl y rr : spb (bsL agg c l x rl y rr) = bsL uagg c (strip l) x (strip rl) y (strip rr).
+  Proof.
+    unfold spb, bsL. rewrite !isBlack_strip, isRed_strip. destruct (isBlack rl && isBlack rr); [reflexivity|].
+    destruct (isRed rl && isBlack rr); [destruct rl; reflexivity|]. cbn [fst snd mk strip]. rewrite strip_paintB. reflexivity.
+  Qed.
+  Lemma strip_bsR c ll y lr x r : spb (bsR agg c ll y lr x r) = bsR uagg c (strip ll) y (strip lr) x (strip r).
+  Proof.
+    unfold spb, bsR. rewrite !isBlack_strip, isRed_strip. destruct (isBlack ll && isBlack lr); [reflexivity|].
+    destruct (isRed lr && isBlack ll); [destruct lr; reflexivity|]. cbn [fst snd mk strip]. rewrite strip_paintB. reflexivity.
+  Qed.
+  Lemma strip_balL c l x r : spb (balL agg c l x r) = balL uagg c (strip l) x (strip r).
+  Proof.
+    unfold balL. destruct r as [|[] rl y a rr]; cbn [strip]; [reflexivity| |apply strip_bsL].
+    destruct rl as [|? a1 z ? b]; cbn [strip]; [reflexivity|].
+    pose proof (strip_bsL Red l x a1 z b) as E0. destruct (bsL agg Red l x a1 z b) as [p' sh]. cbn [strip] in E0.
+    rewrite <- E0. reflexivity.
+  Qed.
+  Lemma strip_balR c l x r : spb (balR agg c l x r) = balR uagg c (strip l) x (strip r).
+  Proof.
+    unfold balR. destruct l as [|[] ll y a lr]; cbn [strip]; [reflexivity| |apply strip_bsR].
+    destruct lr as [|? a1 z ? b]; cbn [strip]; [reflexivity|].
+    pose proof (strip_bsR Red a1 z b x r) as E0. destruct (bsR agg Red a1 z b x r) as [p' sh]. cbn [strip] in E0.
+    rewrite <- E0. reflexivity.
+  Qed.
+  Lemma strip_half c ch : spb (half c ch) = half c (strip ch).
+  Proof. unfold spb, half. destruct c; [reflexivity|]. rewrite isRed_strip. destruct (isRed ch); [cbn; rewrite strip_paintB|]; reflexivity. Qed.
+  Lemma strip_remove_max t :
+    option_map (fun q : tree elt annot * elt * bool => (strip (fst (fst q)), snd (fst q), snd q)) (remove_max agg t)
+    = remove_max uagg (strip t).
+  Proof.
+    induction t as [|c l _ x a r IHr]; cbn [remove_max strip]; [reflexivity|].
+    rewrite <- IHr. destruct (remove_max agg r) as [[[r' m] sh]|]; cbn [option_map fst snd].
+    - destruct sh.
+      + pose proof (strip_balR c l x r') as E0. destruct (balR agg c l x r') as [t' sh']. rewrite <- E0. reflexivity.
+      + reflexivity.
+    - pose proof (strip_half c l) as E0. destruct (half c l) as [t' sh]. rewrite <- E0. reflexivity.
+  Qed.
+  Lemma strip_del_root c l x r : spb (del_root agg c l x r) = del_root uagg c (strip l) x (strip r).
+  Proof.
+    unfold del_root. destruct l as [|cl ll xl al lr]; [apply strip_half|].
+    destruct r as [|cr rl xr ar rr]; [apply (strip_half c (T cl ll xl al lr))|].
+    change (strip (T cl ll xl al lr)) with (T cl (strip ll) xl tt (strip lr)).
+    change (strip (T cr rl xr ar rr)) with (T cr (strip rl) xr tt (strip rr)).
+    pose proof (strip_remove_max (T cl ll xl al lr)) as E0. cbn [strip] in E0. rewrite <- E0.
+    destruct (remove_max agg (T cl ll xl al lr)) as [[[l' m] sh]|]; cbn [option_map fst snd]; [|reflexivity].
+    destruct sh; [apply (strip_balL c l' m (T cr rl xr ar rr))|reflexivity].
+  Qed.
+  Lemma strip_del i t : option_map spb (del id_of agg i t) = del id_of uagg i (strip t).
+  Proof.
+    induction t as [|c l IHl x a r IHr]; cbn [del strip]; [reflexivity|].
+    destruct (N.eqb (id_of x) i); [cbn [option_map]; rewrite strip_del_root; reflexivity|].
+    rewrite <- IHl. destruct (del id_of agg i l) as [[l' sh]|]; cbn [option_map].
+    - destruct sh; [rewrite strip_balL|]; reflexivity.
+    - rewrite <- IHr. destruct (del id_of agg i r) as [[r' sh]|]; cbn [option_map]; [|reflexivity].
+      destruct sh; [rewrite strip_balR|]; reflexivity.
+  Qed.
+  Lemma strip_remove i t : strip (remove id_of agg i t) = remove id_of uagg i (strip t).
+  Proof.
+    unfold remove. rewrite <- strip_del. destruct (del id_of agg i t) as [[t' sh]|]; reflexivity.
+  Qed.
+  Lemma size_strip t : size (strip t) = size t.
+  Proof. induction t as [|c l IHl x a r IHr]; cbn [strip size]; [reflexivity|]. rewrite IHl, IHr. reflexivity. Qed.
 End Strip.
 Arguments strip {elt annot} t.
 
@@ -139,15 +206,6 @@ Section Top.
     exists s'. split; [exact A|]. apply reprS_repr; [|exact B].
     rewrite ids_plug in *. cbn [inorder] in *. rewrite <- app_assoc in Nd. exact Nd.
   Qed.
-  (* every node of every tree is the focus of some context: the zipper form loses no generality *)
-  Lemma occ_plug (t : tree_u) par sub sp : occ id_of t par sub sp -> exists ctx, forall outer, plug (ctx ++ outer) sub = plug outer t.
-  Proof.
-    induction 1 as [t par|c l x a r par u sp O IH|c l x a r par u sp O IH].
-    - exists []. reflexivity.
-    - destruct IH as [ctx IH]. exists (ctx ++ [FL c x r]). intros outer. rewrite <- app_assoc. rewrite IH. destruct a. reflexivity.
-    - destruct IH as [ctx IH]. exists (ctx ++ [FR c l x]). intros outer. rewrite <- app_assoc. rewrite IH. destruct a. reflexivity.
-  Qed.
-
   Definition keys_ok (ek : N -> elt) (t : tree) : Prop := forall y, In y (inorder t) -> ek (id_of y) = y.
 
   Theorem p_insert_refines (ek : N -> elt) x (t : tree) (s : pstate) fuel :
@@ -198,6 +256,38 @@ Section Top.
 
   Lemma size_length (t : tree) : size t = length (inorder t).
   Proof. induction t as [|c l IHl x a r IHr]; cbn [size inorder]; [reflexivity|]. rewrite app_length. cbn [length]. lia. Qed.
+
+  Lemma size_remove i (t : tree) : NoDup (ids t) -> size (remove id_of agg i t) <= size t.
+  Proof.
+    intros Nd. rewrite !size_length, (inorder_remove elt annot id_of agg i t Nd).
+    clear. induction (inorder t) as [|e l IH]; cbn [filter length]; [lia|]. destruct (not_id id_of i e); cbn [length]; lia.
+  Qed.
+
+  (* ---- tree_crtp_struct::remove refines the functional remove *)
+  Theorem p_remove_refines (ek : N -> elt) i (t : tree) (s : pstate) fuel :
+    NoDup (ids t) -> rb t -> In i (ids t) -> repr s t ->
+    2 * Nat.log2 (size t + 1) + 2 < fuel ->
+    exists s', p_remove agg aeqb ek fuel s i = POk s' /\ repr s' (remove id_of agg i t)
+               /\ NoDup (ids (remove id_of agg i t)).
+  Proof.
+    intros Nd Hrb Hi H Hf. pose proof Hrb as [Hb [n Hr]].
+    assert (Ndr : NoDup (ids (remove id_of agg i t))).
+    { rewrite (inorder_remove elt annot id_of agg i t Nd). apply (filter_nodup elt id_of), Nd. }
+    apply (repr_reprS s t Nd) in H.
+    pose proof (rb_height elt annot t Hrb) as Hh.
+    pose proof (rb_height elt annot _ (remove_rb elt annot id_of agg i t Hrb)) as Hh'.
+    assert (Hlog : Nat.log2 (size (remove id_of agg i t) + 1) <= Nat.log2 (size t + 1)).
+    { apply Nat.log2_le_mono. pose proof (size_remove i t Nd). lia. }
+    destruct (p_remove_reprS elt annot id_of agg aeqb ek (strip t) n i s fuel) as (s' & A & B).
+    - rewrite inorder_strip. exact Nd.
+    - apply rbt_strip, Hr.
+    - rewrite inorder_strip. exact Hi.
+    - exact H.
+    - rewrite height_strip. lia.
+    - rewrite <- (strip_remove elt annot id_of agg), height_strip. lia.
+    - rewrite <- (strip_remove elt annot id_of agg) in B.
+      exists s'. split; [exact A|]. split; [|exact Ndr]. apply (repr_reprS s' _ Ndr). exact B.
+  Qed.
 
   Theorem p_ins_run_refines (xs : list elt) : forall (t : tree) (s : pstate) ek fuel,
     NoDup (map id_of xs ++ ids t) -> rb t -> keys_ok ek t -> repr s t ->
